@@ -30,6 +30,18 @@ func (m *Machine) intrinsic(fn *ssa.Function) intrinsicFn {
 		if h, ok := intrinsicTable[name]; ok {
 			return h
 		}
+		// a harness may replace a function of ANOTHER module package (never of its own,
+		// the package under test) by `stub__mod_<pkg>_<Func>`: used to cut a constructor
+		// that needs a live cluster (couchbase.NewClient in newDcp) at the interface it returns
+		if fn.Parent() == nil && fn.Pkg != m.harnessPkg {
+			if mn := mangledName(fn); mn != "" {
+				if stub := m.prog.stubFor("mod_"+mn, m.harnessPkg); stub != nil {
+					return func(m *Machine, caller *frame, _ *ssa.Function, args []Value) Value {
+						return m.callSSA(caller, token.NoPos, stub, args, nil)
+					}
+				}
+			}
+		}
 		return nil
 	}
 	if fn.Parent() == nil {
@@ -338,6 +350,19 @@ func init() {
 			p := a[0].(Ptr)
 			m.yield("wg.Wait")
 			m.block("WaitGroup", 0, func() bool { n, _ := m.side[p].(int64); return n == 0 })
+			return nil
+		},
+		// atomic.Value: the stored interface lives in the machine's side table (the real code goes through unsafe)
+		"(*sync/atomic.Value).Load": func(m *Machine, c *frame, f *ssa.Function, a []Value) Value {
+			m.yield("atomic")
+			if v, ok := m.side[a[0].(Ptr)].(Iface); ok {
+				return v
+			}
+			return Iface{}
+		},
+		"(*sync/atomic.Value).Store": func(m *Machine, c *frame, f *ssa.Function, a []Value) Value {
+			m.yield("atomic")
+			m.side[a[0].(Ptr)] = a[1].(Iface)
 			return nil
 		},
 		"(*sync.Once).Do": func(m *Machine, c *frame, f *ssa.Function, a []Value) Value {
